@@ -199,9 +199,10 @@ def m_step(machine: "IVectorMachine", stats: IVectorStats) -> "IVectorMachine":
         fnorm_sigma_wij_tt = np.diagonal(
             stats.fnorm_sigma_wij @ X, axis1=-2, axis2=-1
         )
-        machine.sigma = (stats.snormij - fnorm_sigma_wij_tt) / stats.nij[
-            :, None
-        ]
+        sigma = (stats.snormij - fnorm_sigma_wij_tt) / stats.nij[:, None]
+        # a component that received no data keeps its previous covariance
+        # (0/0 would otherwise turn sigma, and then T, into NaN)
+        machine.sigma = np.where(stats.nij[:, None] > 0, sigma, machine.sigma)
         machine.sigma[
             machine.sigma < machine.variance_floor
         ] = machine.variance_floor
